@@ -35,6 +35,13 @@ def scenarios():
         "a3/app/app.go": "package main\n\nimport \"fmt\"\n\nfunc main() { fmt.Println(\"svc\", initService().DB.DSN) }\n",
         "a3/app/wire.go": INJ + "package main\n\nimport (\n\t\"example.com/l/a3/top\"\n\t\"%s\"\n)\n\nfunc initService() *top.Svc {\n\tpanic(wire.Build(top.All))\n}\n" % W,
     }, "./a3/app", "svc dsn", ["C10"])
+    add("A-set-reexported-by-a-package-without-wire", "A", {
+        "a5/infra/infra.go": infra,
+        "a5/feature/feature.go": feature % ("a5", W),
+        "a5/facade/facade.go": "package facade\n\nimport \"example.com/l/a5/feature\"\n\nvar Set = feature.Set\n\ntype Svc = feature.Service\n",
+        "a5/app/app.go": "package main\n\nimport \"fmt\"\n\nfunc main() { fmt.Println(\"svc\", initService().DB.DSN) }\n",
+        "a5/app/wire.go": INJ + "package main\n\nimport (\n\t\"example.com/l/a5/facade\"\n\t\"%s\"\n)\n\nfunc initService() *facade.Svc {\n\tpanic(wire.Build(facade.Set))\n}\n" % W,
+    }, "./a5/app", "svc dsn", ["C10", "C20"])
     add("A-inline-nested", "A", {
         "a4/app.go": "package main\n\nimport \"fmt\"\n\n" + types_a + "\nfunc main() { fmt.Println(\"svc\", initService().DB.DSN) }\n",
         "a4/wire.go": INJ + "package main\n\nimport \"%s\"\n\nvar inner = wire.NewSet(NewDB)\n\nfunc initService() *Service {\n\tpanic(wire.Build(wire.NewSet(wire.NewSet(inner), NewService)))\n}\n" % W,
